@@ -567,6 +567,8 @@ def run(P, R, tier):
     query_awaited(P, R)
     holds.hard_hold_sites(P, R, 'C02.GRD.3')
     refusal_kills(P, R)
+    # ... and only a refusal: `NOTICE ...` or `NOPE` is not one
+    decoys_unrecognised(P, R, 'C02.TAB.3')
     # the gate's required-data test and the +! mode bookkeeping are written with the set primitives
     rules.bitset_primitives(P, R, 'C02.TAB.2')
     # a reply may only settle a query that is still unanswered: matching it against anything but the awaited
